@@ -66,6 +66,17 @@ impl Tape {
         self.rec.push(v);
         v
     }
+    /// Take `v` (reduced mod n) as the next draw without consulting the generator: used to walk a
+    /// finite matrix by run index while keeping the choice on the tape for replay.  In replay mode
+    /// the recorded value wins.
+    pub fn forced(&mut self, v: u64, n: u64) -> u64 {
+        if self.rng.is_none() {
+            return self.below(n);
+        }
+        let v = v % n.max(1);
+        self.rec.push(v);
+        v
+    }
     pub fn recorded(&self) -> &[u64] {
         &self.rec
     }
